@@ -216,7 +216,15 @@ impl Database {
             layout.remove_or_compress_hole(start, PAGE_SIZE)?;
             start
         } else {
-            layout.len()
+            let start = layout.len();
+            // Another thread may have taken the tail while no lock was held: the file was
+            // grown for the old end only. Start over (which grows it for the new end).
+            if start + PAGE_SIZE > self.file_len() {
+                drop(regions);
+                drop(layout);
+                return self.create_region_if_needed(id);
+            }
+            start
         };
 
         let region = regions.create(self, id.to_owned(), start)?;
